@@ -78,7 +78,15 @@ struct MqttSharedQueues {
     inflight: VecDeque<(num::NonZeroU16, Option<pool::Sender<Ack>>, AckType)>,
     inflight_ids: HashSet<num::NonZeroU16>,
     waiters: VecDeque<pool::Sender<()>>,
-    rx: Option<pool::Receiver<Ack>>,
+    /// QoS2 packets acknowledged with PUBREC and not yet released with PUBREL
+    received: HashSet<num::NonZeroU16>,
+}
+
+impl MqttSharedQueues {
+    /// Number of unacknowledged requests
+    fn len(&self) -> usize {
+        self.inflight.len() + self.received.len()
+    }
 }
 
 impl MqttShared {
@@ -98,7 +106,7 @@ impl MqttShared {
                 inflight: VecDeque::with_capacity(8),
                 inflight_ids: HashSet::default(),
                 waiters: VecDeque::new(),
-                rx: None,
+                received: HashSet::default(),
             }),
             inflight_idx: Cell::new(0),
             encode_error: Cell::new(None),
@@ -164,7 +172,7 @@ impl MqttShared {
     }
 
     pub(super) fn credit(&self) -> usize {
-        self.cap.get().saturating_sub(self.queues.borrow().inflight.len())
+        self.cap.get().saturating_sub(self.queues.borrow().len())
     }
 
     pub(super) fn next_id(&self) -> num::NonZeroU16 {
@@ -246,6 +254,7 @@ impl MqttShared {
     fn clear_queues(&self) {
         let mut queues = self.queues.borrow_mut();
         queues.waiters.clear();
+        queues.received.clear();
 
         if let Some(cb) = self.on_publish_ack.take() {
             for (idx, tx, _) in queues.inflight.drain(..) {
@@ -276,8 +285,8 @@ impl MqttShared {
 
         // check if there are waiters
         let mut queues = self.queues.borrow_mut();
-        if queues.inflight.len() < self.cap.get() {
-            let mut num = self.cap.get() - queues.inflight.len();
+        if queues.len() < self.cap.get() {
+            let mut num = self.cap.get() - queues.len();
             while num > 0 {
                 if let Some(tx) = queues.waiters.pop_front() {
                     if tx.send(()).is_ok() {
@@ -341,18 +350,22 @@ impl MqttShared {
                 // get publish ack channel
                 log::trace!("Ack packet with id: {}", pkt.packet_id());
 
-                if let Some(tx) = tx {
-                    let _ = tx.send(pkt);
+                if let Some(tx) = tx
+                    && tx.send(pkt).is_ok()
+                {
+                    // wait for release from the publisher
+                    queues.received.insert(idx);
+                } else {
+                    // publisher is gone, complete the exchange
+                    let pkt = codec::Packet::PublishRelease { packet_id: idx };
+                    let _ = self.io.encode(Encoded::Packet(pkt), &self.codec);
+                    queues.inflight.push_back((idx, None, AckType::Complete));
                 }
-                let (tx, rx) = self.pool.queue.channel();
-                queues.rx = Some(rx);
-                queues.inflight.push_back((idx, Some(tx), AckType::Complete));
                 Ok(())
             } else if matches!(pkt, Ack::Complete(_)) {
                 // get publish ack channel
                 log::trace!("Ack packet with id: {}", pkt.packet_id());
                 queues.inflight_ids.remove(&pkt.packet_id());
-                queues.rx.take();
 
                 if let Some(tx) = tx {
                     let _ = tx.send(pkt);
@@ -476,7 +489,7 @@ impl MqttShared {
     /// Wake up next queued request if there is capacity for it
     pub(super) fn wake_waiter(&self) {
         let mut queues = self.queues.borrow_mut();
-        if queues.inflight.len() < self.cap.get()
+        if queues.len() < self.cap.get()
             && !self.flags.get().contains(Flags::WRB_ENABLED)
         {
             while let Some(tx) = queues.waiters.pop_front() {
@@ -490,7 +503,7 @@ impl MqttShared {
     pub(super) fn wait_readiness(&self) -> Option<pool::Receiver<()>> {
         let mut queues = self.queues.borrow_mut();
 
-        if queues.inflight.len() >= self.cap.get()
+        if queues.len() >= self.cap.get()
             || self.flags.get().contains(Flags::WRB_ENABLED)
         {
             let (tx, rx) = self.pool.waiters.channel();
@@ -506,14 +519,20 @@ impl MqttShared {
         &self,
         id: num::NonZeroU16,
     ) -> Result<pool::Receiver<Ack>, SendPacketError> {
-        let Some(rx) = self.queues.borrow_mut().rx.take() else {
+        let mut queues = self.queues.borrow_mut();
+        if !queues.received.remove(&id) {
             return Err(SendPacketError::UnexpectedRelease);
-        };
+        }
         match self.io.encode(
             Encoded::Packet(codec::Packet::PublishRelease { packet_id: id }),
             &self.codec,
         ) {
-            Ok(()) => Ok(rx),
+            Ok(()) => {
+                // PUBCOMP is expected in the order of PUBREL packets
+                let (tx, rx) = self.pool.queue.channel();
+                queues.inflight.push_back((id, Some(tx), AckType::Complete));
+                Ok(rx)
+            }
             Err(e) => Err(SendPacketError::Encode(e)),
         }
     }
